@@ -12,6 +12,7 @@ import (
 	"encoding/json"
 	"fmt"
 	"runtime"
+	"runtime/debug"
 	"sort"
 	"strconv"
 	"strings"
@@ -68,7 +69,9 @@ type Sched struct {
 	maxSteps   int
 	children   map[string]int
 	Diverged   string
-	holders    map[any]string
+	// Panics: panics that escaped a managed goroutine (in production: the process dies)
+	Panics  []string
+	holders map[any]string
 	// AdvanceQuantum / MaxAdvance: when nothing is enabled but goroutines are alive, virtual time is advanced in
 	// quanta up to the horizon before the state is called a deadlock.
 	AdvanceQuantum time.Duration
@@ -284,7 +287,13 @@ func (s *Sched) Spawn(name string, f func()) {
 		s.mu.Unlock()
 		close(started)
 		defer func() {
+			// a panic that nothing in the goroutine recovers would end the process; it is recorded as an outcome of this
+			// execution instead (runtime.Goexit, used to abandon goroutines, is not a panic)
+			p := recover()
 			s.mu.Lock()
+			if p != nil {
+				s.Panics = append(s.Panics, fmt.Sprintf("goroutine %s: panic: %v\n%s", g.name, p, debug.Stack()))
+			}
 			g.state = gDone
 			delete(s.byGoid, id)
 			s.mu.Unlock()
@@ -472,6 +481,7 @@ type Execution struct {
 	Signature  string
 	Outcome    string
 	Err        string
+	Panics     []string
 }
 
 // RunSchedule executes body in a fresh bubble under a scheduler that follows prefix and then always takes
@@ -528,6 +538,13 @@ func RunScheduleExpect(t *testing.T, prefix []int, expect [][]string, maxSteps i
 			sig, detail, outcome := body(s)
 			ex.Points, ex.Trace, ex.Deadlock, ex.HorizonHit, ex.Diverged, ex.Quiescent = s.Points, s.Trace, s.Deadlock, s.HorizonHit, s.Diverged, s.Quiescent
 			ex.Signature, ex.Violation, ex.Outcome = sig, detail, outcome
+			s.mu.Lock()
+			ex.Panics = append([]string(nil), s.Panics...)
+			s.mu.Unlock()
+			if ex.Signature == "" && len(ex.Panics) > 0 {
+				ex.Signature = "crash/panic-escapes-a-goroutine"
+				ex.Violation = ex.Panics[0]
+			}
 		})
 	}()
 	<-done
